@@ -20,12 +20,12 @@ def run (s : Sexp) : String :=
   | .list (.atom "h" :: xs) =>
     match parseOps xs with
     | some ops =>
-      let st := runD Quirks.asIs ops
+      -- F-C14-1 is repaired in /repo (fix commit c18b52a): the model tied to the code is `Quirks.c14Fixed`
+      let st := runD Quirks.c14Fixed ops
       let m := showObs st.relObs
-      let mf := showObs (runD Quirks.c14Fixed ops).relObs
-      let sp := showObs (specRunD Quirks.asIs ops).relObs
-      let trig := joinTrig [(st.staleHit, "F-C14-1"), (st.deadHit, "F-C14-2")]
-      s!"model={m}\tspec={sp}\ttrig={trig}\tmodel_fixed={mf}"
+      let sp := showObs (specRunD Quirks.c14Fixed ops).relObs
+      let trig := joinTrig [(st.deadHit, "F-C14-2")]
+      s!"model={m}\tspec={sp}\ttrig={trig}\tmodel_repaired={showObs (runD Quirks.none ops).relObs}"
     | none => "error=bad-case"
   | _ => "error=bad-case"
 end KrroodVerif.Drive.C14
